@@ -21,6 +21,9 @@ mod paths;
 pub use account::AccountId;
 // pub use crypto::*;
 pub use date_time::UtcDateTime;
+#[cfg(sos_verif)]
+#[doc(hidden)]
+pub use date_time::verif_clock;
 // pub use device::{DevicePublicKey, TrustedDevice};
 pub use encoding::{decode, encode};
 pub use error::{AuthenticationError, Error, ErrorExt, StorageError};
